@@ -44,7 +44,7 @@ LEAN_TY = {
     "Id": "CR.Refs.Id", "IdSet": "List CR.Refs.Id", "IdList": "List CR.Refs.Id", "Bool": "Bool", "Nat": "Nat",
     "Net": "CR.Refs.Net", "Lanelet": "CR.Refs.Lanelet", "Inc": "CR.Refs.Incoming", "Inter": "CR.Refs.Intersection",
     "Elem": "CR.Refs.Elem", "Scn": "CR.Refs.Scn", "RmArg": "CR.Refs.RmArg", "Keep": "CR.Refs.Id → Bool",
-    "OptId": "Option CR.Refs.Id", "OptInter": "Option CR.Refs.Intersection", "OptInc": "Option CR.Refs.Incoming",
+    "OptId": "Option CR.Refs.Id", "OptElem": "Option CR.Refs.Elem", "OptInter": "Option CR.Refs.Intersection", "OptInc": "Option CR.Refs.Incoming",
 }
 
 
@@ -211,17 +211,17 @@ class T10(Tr):
             self.env[x] = ety
             src = it
             for c in g.ifs:
-                src = f"({src}.filter (fun {self.v(x)} => {self.b(c)}))"
+                src = f"({src}.filter (fun ({self.v(x)} : {lean_ty(ety)}) => {self.b(c)}))"
             e, et = self.ex(n.elt)
             self.env = saved
             if isinstance(n, ast.SetComp):
                 if et != "Id":
                     raise Unsupported("set comprehension of non-ids")
-                return f"(CR.PyR.setOfList ({src}.map (fun {self.v(x)} => {e})))", "IdSet"
+                return f"(CR.PyR.setOfList ({src}.map (fun ({self.v(x)} : {lean_ty(ety)}) => {e})))", "IdSet"
             rty = "IdList" if et == "Id" else "List:" + et
             if isinstance(n.elt, ast.Name) and n.elt.id == x:
                 return src, (ity if ity.startswith("List:") else rty)
-            return f"({src}.map (fun {self.v(x)} => {e}))", rty
+            return f"({src}.map (fun ({self.v(x)} : {lean_ty(ety)}) => {e}))", rty
         raise Unsupported(f"expression {type(n).__name__}: {self.unparse(n)}")
 
     def b(self, n):
@@ -358,8 +358,9 @@ class T10(Tr):
                     a, at = self.keys(a), "IdSet"
                 fn = "inter" if m == "intersection" else "diff"
                 return f"(CR.PyR.{fn} {self.co(bt, bty, 'IdSet')} {self.co(a, at, 'IdSet')})", "IdSet"
-            if m in self.s.methods and self.s.methods[m][1] == "fun":
-                fn, _, rty = self.s.methods[m]
+            ent = self.method(n)
+            if ent and ent[1] == "fun":
+                fn, _, rty = ent
                 args = " ".join(self.ex(a)[0] for a in n.args)
                 return f"({fn} {bt} {args})", rty
         raise Unsupported(f"call {d}")
@@ -401,7 +402,8 @@ class T10(Tr):
         if not (isinstance(c, ast.Call) and isinstance(c.func, ast.Attribute)):
             return None
         m = c.func.attr
-        if m in ("add", "append") or (m in self.s.methods and self.s.methods[m][1] in ("mut", "mutM")):
+        ent = self.method(c)
+        if m in ("add", "append") or (ent and ent[1] in ("mut", "mutM")):
             return root(c.func.value)
         if m == "remove" and isinstance(c.func.value, ast.Attribute) and c.func.value.attr == "_id_set":
             return root(c.func.value)
@@ -443,6 +445,8 @@ class T10(Tr):
                 return True
             if isinstance(s, ast.If) and (self.escapes(s.body) or self.escapes(s.orelse)):
                 return True
+            if isinstance(s, ast.If) and self.s.monadic and self.raises([s]):
+                return True
             if isinstance(s, ast.Expr) and self.is_emit(s.value):
                 return True
             if isinstance(s, ast.For):
@@ -464,6 +468,12 @@ class T10(Tr):
         if isinstance(s, ast.If):
             return self.terminates(s.body) and bool(s.orelse) and self.terminates(s.orelse)
         return False
+
+    def method(self, c):
+        """table entry of the method a call goes to: looked up with the receiver's source text first, then by name"""
+        if not isinstance(c.func, ast.Attribute):
+            return None
+        return self.s.methods.get(self.unparse(c.func.value) + "." + c.func.attr) or self.s.methods.get(c.func.attr)
 
     def is_emit(self, c):
         return self.s.emit is not None and isinstance(c, ast.Call) and self.dotted(c.func) == self.s.emit
@@ -625,8 +635,9 @@ class T10(Tr):
             x = self.v(recv.value.id)
             k = self.block(rest, fin, ind + 1)
             return f"{pad}CR.PyR.andThen (CR.PyR.idSetRemove {x} {self.co(t, ty, 'Id')}) (fun {x} =>\n{k})"
-        if m in self.s.methods:
-            fn, kind = self.s.methods[m][0], self.s.methods[m][1]
+        ent = self.method(c)
+        if ent:
+            fn, kind = ent[0], ent[1]
             args = " ".join(self.arg(a) for a in c.args)
             if kind == "mut":
                 var, wrap, cur = self.place(recv)
@@ -672,6 +683,8 @@ class T10(Tr):
         pad = "  " * ind
         x = s.target.id
         it, ity = self.ex(s.iter)
+        if ity.startswith("OptList:"):
+            it, ity = f"({it}.getD [])", ity[3:]
         ety = self.elem(ity)
         mutated = self.assigned(s.body)
         saved = dict(self.env)
@@ -717,7 +730,8 @@ class T10(Tr):
                     return True
                 if isinstance(x, ast.Call) and isinstance(x.func, ast.Attribute):
                     m = x.func.attr
-                    if (m in self.s.methods and self.s.methods[m][1] == "mutM") or \
+                    ent = self.method(x)
+                    if (ent and ent[1] == "mutM") or \
                             (m == "remove" and isinstance(x.func.value, ast.Attribute) and x.func.value.attr == "_id_set"):
                         return True
         return False
@@ -744,7 +758,7 @@ class T10(Tr):
                 stmts = list(loop.body)
             self.in_loop = True
         body = self.block(stmts, self.final() if sp.fin is not None else "none", 1)
-        binders = " ".join(f"({ln} : {lean_ty(ty)})" for _, ln, ty in sp.params)
+        binders = " ".join(f"({ln} : {lean_ty(ty) if ty in LEAN_TY or ty[:5] in ('List:', 'Prod:') else ty})" for _, ln, ty in sp.params)
         doc = f"/-- {sp.file}: {sp.cls}.{sp.func}{(' — ' + sp.doc) if sp.doc else ''} -/\n"
         return f"{doc}def {sp.name} {binders} : {sp.ret} :=\n{body}\n"
 
@@ -757,6 +771,7 @@ class T10(Tr):
     def pick_branch(self, stmts, want_list):
         """`if isinstance(x, list): <loop>; return` followed by the single-object code."""
         out = []
+        wrapped = False
         for i, s in enumerate(stmts):
             if isinstance(s, ast.If) and isinstance(s.test, ast.Call) and self.dotted(s.test.func) == "isinstance" \
                     and self.unparse(s.test.args[1]) == "list" and not s.orelse:
@@ -768,9 +783,12 @@ class T10(Tr):
                     and self.unparse(s.test.operand.args[1]) == "list" and not s.orelse:
                 # `if not isinstance(x, list): x = [x]` : the list form is what is translated
                 if want_list:
+                    wrapped = True
                     continue
                 raise Unsupported("single-object form of a function that wraps its argument into a list")
             out.append(s)
+        if wrapped:
+            return out
         raise Unsupported("list / single-object dispatch not found")
 
 
@@ -812,6 +830,48 @@ def specs():
              "Option CR.Refs.Intersection", loop=["lanelet_network.intersections"], emit="new_lanelet_network.add_intersection",
              locals_={"new_incomings": "List:Inc", "new_crossings": "IdSet"},
              doc="body of the loop over the old intersections: `none` = continue, `some i` = add_intersection(i)"),
+    ]
+    SCN = [("self", "self", "Scn")]
+    scn_ret = "CR.Refs.Scn × Option CR.Err"
+    finds = {"find_traffic_sign_by_id": ("CR.PyR.findSign", "fun", "OptElem"),
+             "find_traffic_light_by_id": ("CR.PyR.findLight", "fun", "OptElem"),
+             "find_lanelet_by_id": ("CR.PyR.findLanelet", "fun", "OptLanelet"),
+             "find_intersection_by_id": ("CR.PyR.findInter", "fun", "OptInter")}
+    netm = {"self.lanelet_network.remove_traffic_sign": ("LaneletNetwork_remove_traffic_sign", "mut"),
+            "self.lanelet_network.remove_traffic_light": ("LaneletNetwork_remove_traffic_light", "mut"),
+            "self.lanelet_network.remove_lanelet": ("LaneletNetwork_remove_lanelet", "mut"),
+            "self.lanelet_network.remove_intersection": ("LaneletNetwork_remove_intersection", "mut")}
+    out += [
+        Spec("Scenario_remove_traffic_sign_one", S, "Scenario", "remove_traffic_sign", SCN + [("traffic_sign", "traffic_sign", "Elem")],
+             scn_ret, fin="self", monadic=True, list_branch=False, methods={**finds, **netm}, doc="argument is one TrafficSign"),
+        Spec("Scenario_remove_traffic_sign_list", S, "Scenario", "remove_traffic_sign",
+             SCN + [("traffic_sign", "traffic_sign", "List:Elem")], scn_ret, fin="self", monadic=True, list_branch=True,
+             methods={"self.remove_traffic_sign": ("Scenario_remove_traffic_sign_one", "mutM")}, doc="argument is a list"),
+        Spec("Scenario_remove_traffic_light_one", S, "Scenario", "remove_traffic_light", SCN + [("traffic_light", "traffic_light", "Elem")],
+             scn_ret, fin="self", monadic=True, list_branch=False, methods={**finds, **netm}, doc="argument is one TrafficLight"),
+        Spec("Scenario_remove_traffic_light_list", S, "Scenario", "remove_traffic_light",
+             SCN + [("traffic_light", "traffic_light", "List:Elem")], scn_ret, fin="self", monadic=True, list_branch=True,
+             methods={"self.remove_traffic_light": ("Scenario_remove_traffic_light_one", "mutM")}, doc="argument is a list"),
+        Spec("Scenario_remove_intersection_one", S, "Scenario", "remove_intersection", SCN + [("intersection", "intersection", "Inter")],
+             scn_ret, fin="self", monadic=True, list_branch=False, methods={**finds, **netm}, doc="argument is one Intersection"),
+        Spec("Scenario_remove_intersection_list", S, "Scenario", "remove_intersection",
+             SCN + [("intersection", "intersection", "List:Inter")], scn_ret, fin="self", monadic=True, list_branch=True,
+             methods={"self.remove_intersection": ("Scenario_remove_intersection_one", "mutM")}, doc="argument is a list"),
+        Spec("Scenario_hanging_members", S, "Scenario", "remove_hanging_lanelet_members",
+             SCN + [("remove_lanelet", "remove_lanelet", "List:RmArg")], "(List CR.Refs.Id) × (List CR.Refs.Id)",
+             fin="(remove_traffic_signs, remove_traffic_lights)", upto_loop="self.lanelet_network.traffic_lights",
+             locals_={"remove_traffic_signs": "IdList", "remove_traffic_lights": "IdList"},
+             methods={"find_traffic_sign_by_id": ("CR.PyR.idOfFound", "fun", "Id"),
+                      "find_traffic_light_by_id": ("CR.PyR.idOfFound", "fun", "Id")},
+             doc="everything before the two removal calls: the signs / lights handed to remove_traffic_sign / remove_traffic_light, "
+                 "as ids (`find_*_by_id(t.id)` of an element `t` of the network is an element with that id)"),
+        Spec("Scenario_remove_lanelet_list", S, "Scenario", "remove_lanelet",
+             SCN + [("lanelet", "lanelet", "List:RmArg"), ("referenced_elements", "referenced_elements", "Bool"),
+                    (None, "hang", "CR.Refs.Scn → List CR.Refs.RmArg → CR.Refs.Scn × Option CR.Err")],
+             scn_ret, fin="self", monadic=True, list_branch=True,
+             methods={**finds, **netm, "self.remove_hanging_lanelet_members": ("hang", "mutM")},
+             doc="argument is a list of lanelets (a single lanelet is wrapped into a list); `hang` stands for "
+                 "remove_hanging_lanelet_members"),
     ]
     return out
 
